@@ -31,8 +31,9 @@ theorem witness_disk_joint : (LRes.st (runPass (wCfg true) wWorld wDone wipe [0,
 theorem cache_single_key_unsafe :
     ¬ SafeDisk wWorld [0, 0] (LRes.st (runPass (wCfg false) wWorld wDone wipe [0, 1] 10 0 { disk := [0, 0] })).disk := by
   rw [witness_disk_old]
-  rintro (h | ⟨rid, ord, h⟩)
+  rintro (h | ⟨rid, ord, h⟩ | h)
   · cases h
   · simp [invExit, wWorld] at h
+  · simp [wWorld] at h
 
 end Cvise.D
